@@ -130,6 +130,7 @@ pub enum DiagnosticInfoMessage {
     RecordShouldHaveTwoTypeArguments,
     DuplicatedRestNonSerializable,
     TupleRestMustBeLast,
+    MappedTypeAsClauseNotSupported,
     UniqueNonSerializable,
     ReadonlyNonSerializable,
     ThisTypeNonSerializable,
@@ -172,6 +173,9 @@ impl DiagnosticInfoMessage {
             }
             DiagnosticInfoMessage::TupleRestMustBeLast => {
                 "A rest element in the middle or at the start of a tuple is not supported".to_string()
+            }
+            DiagnosticInfoMessage::MappedTypeAsClauseNotSupported => {
+                "Mapped type `as` clause is not supported".to_string()
             }
             DiagnosticInfoMessage::DuplicatedRestNonSerializable => {
                 "This rest parameter cannot be extracted".to_string()
